@@ -335,6 +335,10 @@ def run(ctx):
     ctx.rule("R10.reccount", "a diff tool that reads numrecs from the headers compares the two files' record counts")
     r10reccount.check(ctx, dprog, "R10.reccount", ("ncmpidiff.c", "cdfdiff.c"))
     r10reccount.check_dimlen(ctx, dprog, "R10.reccount", ("cdfdiff.c",))
+    from rules import r9msgbuf
+    ctx.rule("R9.msgbuf", "ncvalidator, ncoffsets (and cdfdiff through the validator's decoder): every sprintf / strcpy / strcat into a "
+             "character array of constant size is bounded below the size of the array; a `%s` of a name read from the file is unbounded")
+    r9msgbuf.check(ctx, ctx.program(groups=["util"]), "R9.msgbuf", 6, units=("ncvalidator.c", "ncoffsets.c"))
     from rules import r10bitequal
     ctx.rule("R10.bitequal", "ncmpidiff: floating-point values count as different only when `!=` holds and their bit patterns differ "
              "(a NaN is not different from the same NaN)")
